@@ -80,10 +80,19 @@ fn gen_model(rng: &mut Rng, n: usize, edge_bits: Option<u64>, consts: bool) -> M
     for _ in 0..n {
         let st = stems.fresh(rng);
         let kind = *rng.pick(&[0u8, 0, 0, 1, 1, 2, 2, 3]);
-        let name = match rng.below(3) {
-            0 => cap(&st),
-            1 => format!("A{}", cap(&st)),
-            _ => format!("Z{}", cap(&st)),
+        // an eighth of the names do not begin with an upper-case letter (C-style `point_t`, `iOSDevice`): they sort after
+        // every CamelCase name
+        let name = match rng.below(8) {
+            0 | 1 => cap(&st),
+            2 | 3 | 4 => format!("A{}", cap(&st)),
+            5 | 6 => format!("Z{}", cap(&st)),
+            _ => {
+                if rng.coin() {
+                    format!("{st}_t")
+                } else {
+                    format!("i{}", cap(&st))
+                }
+            }
         };
         let renamed = if kind != 2 && rng.chance(1, 5) { Some(format!("{}Rn", cap(&st))) } else { None };
         let generic = kind == 0 && rng.chance(1, 3);
@@ -405,7 +414,7 @@ pub fn run(ctx: &Ctx) -> (Spec, Report) {
     );
     let spec = Spec {
         level: "exploration",
-        rule: format!("all 512 edge sets over 3 items (exhaustive) plus {} random graphs on 1-12 items (DAGs, diamonds, chains, self-loops, cycles), references placed in struct fields, newtype and struct variants, alias targets and const types, through direct / Vec / Option / HashMap key / value / array / slice / generic argument / nested wrappers, any source order, a fifth of the types serde-renamed; TS, Kotlin, Swift, Go, Python; oracle: every item defined exactly once; for acyclic graphs every definition after each same-file definition it refers to (Python additionally imported under stub pydantic); distinct = (language, item count, acyclic?) and (edge position, wrapper, target renamed?)", n - n_exh),
+        rule: format!("all 512 edge sets over 3 items (exhaustive) plus {} random graphs on 1-12 items (DAGs, diamonds, chains, self-loops, cycles; an eighth of the item names begin with a lower-case letter), references placed in struct fields, newtype and struct variants, alias targets and const types, through direct / Vec / Option / HashMap key / value / array / slice / generic argument / nested wrappers, any source order, a fifth of the types serde-renamed; TS, Kotlin, Swift, Go, Python; oracle: every item defined exactly once; for acyclic graphs every definition after each same-file definition it refers to (Python additionally imported under stub pydantic); distinct = (language, item count, acyclic?) and (edge position, wrapper, target renamed?)", n - n_exh),
         assumptions: vec!["definition positions are those of the principal definitions recovered by the output parsers; Scala does not use the shared ordering and is not judged".into()],
         exhaustive: Some(false),
     };
